@@ -1,8 +1,9 @@
 /-
-  Lemmas about the generated `lower_binop` (`Generated/OpTables`, from
-  src/lir/lower.rs) on the integer types, used by C01 and C10: which instruction
-  it emits (`lower_binop_int`) and what that instruction's compiled sequence
-  computes in language terms (`run_expected_eq`).
+  For C01: the instruction `lower_binop` is expected to emit for each operator on
+  the integer types (`expectedInstr`; that the generated `lower_binop` is this
+  table is theorem `C01.lower_binop_int`) and what that instruction's compiled
+  sequence computes in language terms (`run_expected_eq`, over the generated
+  codegen arms).
 -/
 import RotoV.Lemmas.Scalar
 
@@ -29,12 +30,6 @@ def expectedInstr (op : BinOp) (k : IntKind) (sz : IntSize) : Option Instruction
   | .Eq => some (.CallEq false .lhs .rhs)
   | .Ne => some (.CallEq true .lhs .rhs)
   | .And | .Or => none
-
-/-- the generated `lower_binop` is that table (11 operators × 8 types), in both profiles. -/
-theorem lower_binop_int (dbg : Bool) (op : BinOp) (k : IntKind) (sz : IntSize) (i : Instruction)
-    (h : expectedInstr op k sz = some i) :
-    lower_binop dbg op (.Primitive (.Int k sz)) = .ok i := by
-  cases op <;> cases k <;> cases sz <;> simp [expectedInstr, IntKind.signed] at h <;> subst h <;> rfl
 
 /-- What the compiled sequence for `a op b` computes on `Primitive.Int k sz`, in language terms
     (values over `Int`, `Res.panic` = hardware trap).  `&&`/`||` never reach `binop`. -/
